@@ -7,6 +7,7 @@
 mod c04;
 mod c06;
 mod c07;
+mod c08;
 mod c09;
 mod c15;
 mod c16;
@@ -69,6 +70,7 @@ fn main() {
     let (st, rule): (Stats, &str) = match cmd.as_str() {
         "c06" => c06::run(&p),
         "c07" => c07::run(&p),
+        "c08" => c08::run(&p),
         "c09" => c09::run(&p),
         "c02" => streams::run_family(&p, &streams::C02),
         "c03" => streams::run_family(&p, &streams::C03),
